@@ -311,7 +311,30 @@ def install(I):
         step = I.binop(ast.Div(), I.binop(ast.Sub(), b, a), Num(ep.const(c - 1)))
         return PyObjV(NDArray([I.binop(ast.Add(), a, I.binop(ast.Mult(), Num(ep.const(i)), step)) for i in range(c)]))
 
-    names = {"asarray": asarray, "array": asarray, "asfarray": asarray, "diff": diff, "interp": interp, "searchsorted": searchsorted,
+    def arange(args, kwargs, node, env):
+        _kw(kwargs, ("dtype",), "arange")
+        if not 1 <= len(args) <= 3:
+            _err("arange arguments")
+        vals = [a if isinstance(a, Num) else Num(I.num(a, node)) for a in args]
+        start, stop, step = {1: (Num(ep.const(0)), vals[0], Num(ep.const(1))), 2: (vals[0], vals[1], Num(ep.const(1))),
+                             3: tuple(vals)}[len(vals)]
+        cs = [v.const() for v in (start, stop, step)]
+        if all(c is not None for c in cs):
+            import math
+            n = max(0, math.ceil((Fraction(cs[1]) - Fraction(cs[0])) / Fraction(cs[2])))
+            return PyObjV(NDArray([Num(ep.const(Fraction(cs[0]) + i * Fraction(cs[2]))) for i in range(n)]))
+        whole_step = cs[2] is not None and Fraction(cs[2]).denominator == 1
+        if not whole_step:
+            # numpy's own documentation: with a non-integer step the length ceil((stop - start)/step) is decided by a rounded
+            # floating-point quotient - for some values one element more or fewer than the exact quotient says
+            from .symeval import RaiseSignal
+            from .symeval_ops import ExcV
+            raise RaiseSignal(ExcV(ExtV("verif.FloatControlledOutputLoop"),
+                                   [Const("the length of numpy.arange(start, stop, step) with a non-integer step is ceil of a rounded "
+                                          "floating-point quotient (numpy documents linspace for this)")]), node)
+        _err("arange of symbolic whole numbers")
+
+    names = {"arange": arange, "asarray": asarray, "array": asarray, "asfarray": asarray, "diff": diff, "interp": interp, "searchsorted": searchsorted,
              "argsort": argsort, "sort": sort, "any": any_, "all": all_, "isclose": isclose, "allclose": allclose, "linspace": linspace}
     for nm, fn in names.items():
         for prefix in ("numpy", "np"):
